@@ -29,9 +29,21 @@ func IsTruthy(val any) bool {
 	case nil:
 		return false
 	default:
+		// named types (type Count int, type Flag bool ...) follow their kind;
 		// a nil pointer is nil, whatever its type
-		if rv := reflect.ValueOf(val); rv.Kind() == reflect.Ptr && rv.IsNil() {
-			return false
+		switch rv := reflect.ValueOf(val); rv.Kind() {
+		case reflect.Bool:
+			return rv.Bool()
+		case reflect.String:
+			return IsTruthy(rv.String())
+		case reflect.Int, reflect.Int8, reflect.Int16, reflect.Int32, reflect.Int64:
+			return rv.Int() != 0
+		case reflect.Uint, reflect.Uint8, reflect.Uint16, reflect.Uint32, reflect.Uint64, reflect.Uintptr:
+			return rv.Uint() != 0
+		case reflect.Float32, reflect.Float64:
+			return rv.Float() != 0
+		case reflect.Ptr:
+			return !rv.IsNil()
 		}
 		return true
 	}
